@@ -80,7 +80,7 @@ type vfForge struct {
 }
 
 func (s *vfSession) forgeStep(x *vfSide) { //nolint:cyclop,maintidx
-	if s.broken != "" || x.closed || !x.started {
+	if s.broken != "" || x.closed || (!x.started && !s.forgeUnstarted) {
 		return
 	}
 	rng := s.rng
@@ -103,11 +103,31 @@ func (s *vfSession) forgeStep(x *vfSide) { //nolint:cyclop,maintidx
 	}
 	f := vfForge{}
 	f.Kind = []string{"request", "request", "request", "success", "success", "success", "error", "indication", "other-method"}[rng.IntN(9)]
-	f.User = []string{"correct", "swapped", "wrong", "absent", "oldgen", "prefix", "trailing-colon", "correct", "correct"}[rng.IntN(9)]
+	f.User = []string{"correct", "swapped", "wrong", "absent", "oldgen", "prefix", "trailing-colon", "correct", "correct", "empty-remote"}[rng.IntN(10)]
+	// the agent has no remote credentials yet (before Dial/Accept) or no longer (after Restart, before they are set again):
+	// the peer's real username is then NOT '<local ufrag>:<remote ufrag>' and no response can verify
+	remoteKnown := sn.RemoteUfrag != ""
 	f.Key = []string{"correct", "correct", "other-side", "wrong", "oldgen", "absent"}[rng.IntN(6)]
 	f.Tx = []string{"fresh", "outstanding", "answered", "oldgen"}[rng.IntN(4)]
 	f.Src = []string{"known", "known", "unknown"}[rng.IntN(3)]
 	f.Finger = rng.IntN(4) != 0
+	if s.forgeValidTCP {
+		// seeding step: a genuinely valid check from a new TCP peer address (an active peer that connected to the passive candidate)
+		var tcpLocals []vfCandSnap
+		for _, l := range sn.Locals {
+			if l.NT.IsTCP() {
+				tcpLocals = append(tcpLocals, l)
+			}
+		}
+		if len(tcpLocals) == 0 {
+			return
+		}
+		lc = tcpLocals[rng.IntN(len(tcpLocals))]
+		if dst, err = netip.ParseAddrPort(strings.SplitN(lc.Addr, "/", 2)[1]); err != nil {
+			return
+		}
+		f.Kind, f.User, f.Key, f.Tx, f.Src = "request", "correct", "correct", "fresh", "unknown"
+	}
 	// source address
 	var src netip.AddrPort
 	var knownAddrs []netip.AddrPort
@@ -118,13 +138,17 @@ func (s *vfSession) forgeStep(x *vfSide) { //nolint:cyclop,maintidx
 			}
 		}
 	}
-	if f.Src == "unknown" && x.otherTransportAddr.IsValid() && dst.Addr().Is4() && rng.IntN(3) == 0 {
+	if f.Src == "unknown" && x.otherTransportAddr.IsValid() && dst.Addr().Is4() && !lc.NT.IsTCP() && rng.IntN(3) == 0 {
 		f.Src, src = "known-on-other-transport", x.otherTransportAddr // known to the agent only as a remote TCP candidate
 	} else if f.Src == "known" && len(knownAddrs) > 0 {
 		src = knownAddrs[rng.IntN(len(knownAddrs))]
 	} else {
 		f.Src = "unknown"
 		src = netip.AddrPortFrom(netip.MustParseAddr(fmt.Sprintf("172.30.%d.%d", rng.IntN(250), 1+rng.IntN(250))), uint16(2000+rng.IntN(60000))) //nolint:gosec
+		if lc.NT.IsTCP() || rng.IntN(4) == 0 {
+			// few hosts, many ports: several connections / streams from one host or NAT
+			src = netip.AddrPortFrom(netip.MustParseAddr(fmt.Sprintf("172.30.0.%d", 1+rng.IntN(2))), src.Port())
+		}
 		if dst.Addr().Is6() {
 			src = netip.AddrPortFrom(netip.MustParseAddr(fmt.Sprintf("fd66::%x", 1+rng.IntN(65000))), src.Port())
 		}
@@ -159,6 +183,53 @@ func (s *vfSession) forgeStep(x *vfSide) { //nolint:cyclop,maintidx
 	pendingSet := map[string]bool{}
 	for _, t := range sn.Pending {
 		pendingSet[t] = true
+	}
+	// a known remote address (same network type as the socket that sent d) on the IP d went to, but on another port
+	sibling := func(d *vfDgram) (netip.AddrPort, bool) {
+		var nt NetworkType
+		found := false
+		for _, l := range sn.Locals {
+			if ap, err := netip.ParseAddrPort(strings.SplitN(l.Addr, "/", 2)[1]); err == nil && ap == d.SrcPriv {
+				nt, found = l.NT, true
+			}
+		}
+		if !found {
+			return netip.AddrPort{}, false
+		}
+		for _, rc := range sn.Remotes {
+			if rc.NT != nt {
+				continue
+			}
+			if ap, err := netip.ParseAddrPort(strings.SplitN(rc.Addr, "/", 2)[1]); err == nil && ap.Addr() == d.Dst.Addr() && ap.Port() != d.Dst.Port() {
+				return ap, true
+			}
+		}
+
+		return netip.AddrPort{}, false
+	}
+	if f.Tx == "outstanding" && f.Kind == "success" && rng.IntN(2) == 0 {
+		// directed: everything right (signature, live transaction, known source on the right IP) except the source PORT
+		var sib netip.AddrPort
+		if pickTx(func(d *vfDgram) bool {
+			if !pendingSet[d.Stun.TxID] {
+				return false
+			}
+			_, ok := sibling(d)
+
+			return ok
+		}) {
+			for _, d := range s.sw.wireFrom(0) {
+				if d.Emitter == x.name && d.Dst == outstandingDst && d.SrcPriv == outstandingSock {
+					sib, _ = sibling(d)
+
+					break
+				}
+			}
+			if sib.IsValid() {
+				txKind, f.Tx = "outstanding", "outstanding-directed"
+				f.Key, src, f.Src, dst = "correct", sib, "known-same-ip-other-port", outstandingSock
+			}
+		}
 	}
 	switch f.Tx {
 	case "outstanding":
@@ -239,6 +310,8 @@ func (s *vfSession) forgeStep(x *vfSide) { //nolint:cyclop,maintidx
 		}
 	case "prefix":
 		user = x.ufrag
+	case "empty-remote":
+		user = x.ufrag + ":"
 	case "trailing-colon":
 		user = correctUser + ":"
 	}
@@ -303,8 +376,14 @@ func (s *vfSession) forgeStep(x *vfSide) { //nolint:cyclop,maintidx
 		return
 	}
 	// classify from first principles
-	userOK := f.User == "correct"
+	if !remoteKnown && f.User == "correct" {
+		f.User = "peer-ufrag-while-remote-credentials-unset"
+	}
+	userOK := f.User == "correct" || (f.User == "empty-remote" && !remoteKnown)
 	keyOK := f.Key == "correct"
+	if !remoteKnown && f.Kind != "request" {
+		keyOK = false // verified against an empty remote password
+	}
 	switch f.Kind {
 	case "request":
 		if userOK && keyOK {
@@ -338,7 +417,10 @@ func (s *vfSession) forgeStep(x *vfSide) { //nolint:cyclop,maintidx
 		return
 	}
 	emitted1 := s.emittedBy(x.name)
-	cls := fmt.Sprintf("%s/user=%s/key=%s/tx=%s/src=%s/%s/state=%s", f.Kind, f.User, f.Key, f.Tx, f.Src, f.Expected, sn.State)
+	cls := fmt.Sprintf("%s/user=%s/key=%s/tx=%s/src=%s/%s/state=%s/remotecreds=%v", f.Kind, f.User, f.Key, f.Tx, f.Src, f.Expected, sn.State, remoteKnown)
+	if !remoteKnown {
+		s.r.count("c02_injections_without_remote_credentials", 1)
+	}
 	s.r.set("c02_classes", fmt.Sprintf("%s/user=%s/key=%s/tx=%s/src=%s/%s", f.Kind, f.User, f.Key, f.Tx, f.Src, f.Expected))
 	s.r.set("c02_agent_states", sn.State.String())
 	s.r.count("c02_injections", 1)
@@ -419,7 +501,18 @@ func vfC02Run(e *vfEnv, r *vfResult, idx int) {
 	t := vfGenTopo(s)
 	withRestart := s.rng.IntN(3) == 0
 	s.desc["topology"], s.desc["restart"] = t, withRestart
-	if err := s.setupPair(t, vfSideCfg{MaxBinding: 1000, TieBreaker: 51, Renomination: s.rng.IntN(3) == 0}, vfSideCfg{MaxBinding: 1000, TieBreaker: 52, Renomination: true}, true, false); err != nil {
+	forgeBoth := func(n int) {
+		for i := 0; i < n; i++ {
+			s.forgeStep(s.A)
+			s.forgeStep(s.B)
+		}
+	}
+	s.forgeUnstarted = true
+	s.beforeStart = func() { forgeBoth(2) }   // gathered, but no remote credentials yet
+	s.afterRegather = func() { forgeBoth(2) } // after Restart, before the remote credentials are set again
+	tcpA, tcpB := s.rng.IntN(2) == 0, s.rng.IntN(2) == 0
+	s.desc["tcp_passive_a"], s.desc["tcp_passive_b"] = tcpA, tcpB
+	if err := s.setupPair(t, vfSideCfg{MaxBinding: 1000, TieBreaker: 51, Renomination: s.rng.IntN(3) == 0, TCPPassive: tcpA}, vfSideCfg{MaxBinding: 1000, TieBreaker: 52, Renomination: true, TCPPassive: tcpB}, true, false); err != nil {
 		r.inconclusive(1)
 
 		return
@@ -471,6 +564,19 @@ func vfC02Run(e *vfEnv, r *vfResult, idx int) {
 		s.forgeStep(s.A)
 		s.forgeStep(s.B)
 	}
+	// active TCP peers connect to the passive candidates: valid checks from a few ports of one or two hosts
+	seedTCP := func() {
+		s.forgeValidTCP = true
+		for _, x := range s.sides() {
+			if x.cfg.TCPPassive {
+				for i := 0; i < 2+s.rng.IntN(2); i++ {
+					s.forgeStep(x)
+				}
+			}
+		}
+		s.forgeValidTCP = false
+	}
+	seedTCP()
 	phase(40 + s.rng.IntN(120))
 	s.fairSuffixC06(&pending, 3)
 	phase(20 + s.rng.IntN(40))
@@ -488,6 +594,9 @@ func vfC02Run(e *vfEnv, r *vfResult, idx int) {
 			s.B.oldUfrag, s.B.oldPwd = "", "" // B's generation continues: it has no ended credentials
 			s.restartStep(s.A)
 			if err = s.A.gather(); err == nil {
+				for i := 0; i < 3; i++ {
+					s.forgeStep(s.A) // A has a new generation and no remote credentials
+				}
 				err = s.A.a.SetRemoteCredentials(s.B.ufrag, s.B.pwd)
 			}
 			if err == nil {
@@ -503,6 +612,7 @@ func vfC02Run(e *vfEnv, r *vfResult, idx int) {
 				s.forgeStep(s.A)
 				s.forgeStep(s.B)
 			}
+			seedTCP()
 			phase(40 + s.rng.IntN(80))
 			s.fairSuffixC06(&pending, 3)
 			phase(10 + s.rng.IntN(30))
